@@ -38,12 +38,28 @@ class _Layouts:
         def call(*a, **kw):
             a = [gen.relayout(self._rng, x) if isinstance(x, np.ndarray) and x.ndim == 2 and x.dtype == np.float64 else x
                  for x in a]
-            return f(*a, **kw)
+            out = f(*a, **kw)
+            if isinstance(out, np.ndarray):
+                _RETURNED.append(out)
+            return out
         return call
 
 
+_RETURNED = []
+
+
 def lie(case=None):
+    """
+    Every array a lie-algebra function returned during the previous case is now dead: it is
+    overwritten (what callers do when they go on computing in place with a returned matrix).
+    A function that hands out a shared object (module-level constant, cached result) instead of
+    a fresh array shows up in the cases that follow.
+    """
     from evo.core import lie_algebra
+    for arr in _RETURNED:
+        if arr.flags.writeable:
+            arr[...] = np.nan
+    del _RETURNED[:]
     return _Layouts(lie_algebra, case)
 
 
